@@ -113,6 +113,9 @@ struct ModuleDef {
 #[derive(Clone)]
 struct Field {
     name: String,
+    /// variable-name stem, unique per datum (a name may be re-used by a later datum)
+    var: String,
+    id: usize,
     k: K,
     uninit: bool,
     offset: usize,
@@ -180,6 +183,18 @@ fn corpus() -> Vec<ModuleDef> {
                 Remove("lo"), Remove("zt"), Remove("t"), Add("p", U16, false), Add("q", U16, true), Add("z2", ZTok, false), Close(S::Simple),
             ],
         },
+        // names removed and added again in the same step (a new datum, other type), droppable too
+        ModuleDef {
+            name: "m_readd",
+            clone: true,
+            serde: false,
+            tier: "quick",
+            ops: vec![
+                Add("id", U32, false), Add("count", U32, false), Add("t", Tok, false), Add("level", U16, true), Close(S::Simple),
+                Add("score", U64, true), Close(S::Simple),
+                Remove("count"), Remove("level"), Remove("t"), Add("count", U64, false), Add("level", U32, true), Add("t", Tok4, false), Close(S::Simple),
+            ],
+        },
         // serialization fragment: integers and a droppable value over three variants
         ModuleDef {
             name: "m_serde",
@@ -244,6 +259,7 @@ fn random_module(index: usize, seed: u64) -> ModuleDef {
     let kinds = [K::U8, K::U16, K::U32, K::U64, K::U128, K::A3, K::S12, K::S24, K::Unit, K::Zst, K::A16, K::BoxU32, K::Tok, K::Tok4, K::ZTok];
     let mut ops = Vec::new();
     let mut live: Vec<&'static str> = Vec::new();
+    let mut freed: Vec<&'static str> = Vec::new();
     let mut counter = 0;
     let mut tokens = 0;
     let nvariants = 2 + rng.below(3) as usize;
@@ -252,7 +268,9 @@ fn random_module(index: usize, seed: u64) -> ModuleDef {
             let nrm = rng.below(3) as usize;
             for _ in 0..nrm.min(live.len()) {
                 let i = rng.below(live.len() as u64) as usize;
-                ops.push(Op::Remove(live.remove(i)));
+                let name = live.remove(i);
+                freed.push(name);
+                ops.push(Op::Remove(name));
             }
         }
         let nadd = 1 + rng.below(3) as usize;
@@ -265,8 +283,14 @@ fn random_module(index: usize, seed: u64) -> ModuleDef {
                     tokens += 1;
                 }
             }
-            let name: &'static str = Box::leak(format!("f{}", counter).into_boxed_str());
-            counter += 1;
+            // one addition in four re-uses a name that was removed (in this step or earlier)
+            let name: &'static str = if !freed.is_empty() && rng.below(4) == 0 {
+                freed.remove(rng.below(freed.len() as u64) as usize)
+            } else {
+                let n: &'static str = Box::leak(format!("f{}", counter).into_boxed_str());
+                counter += 1;
+                n
+            };
             let uninit = k.copy() && rng.below(2) == 0;
             ops.push(Op::Add(name, k, uninit));
             live.push(name);
@@ -276,9 +300,16 @@ fn random_module(index: usize, seed: u64) -> ModuleDef {
     ModuleDef { name: Box::leak(format!("r{}_{}", seed, index).into_boxed_str()), ops, clone: rng.below(2) == 0, serde: false, tier: "random" }
 }
 
-fn build(def: &ModuleDef) -> (RecordDefinition<NativeDatumDetails>, BTreeMap<String, (K, bool, DatumId)>) {
+fn id_index(d: DatumId) -> usize {
+    format!("{}", d).parse().unwrap()
+}
+
+/// returns the definition and, per datum id, its kind and uninit flag
+fn build(def: &ModuleDef) -> (RecordDefinition<NativeDatumDetails>, BTreeMap<usize, (K, bool)>) {
     let mut b = NativeRecordDefinitionBuilder::new(&HostTypeResolver);
-    let mut kinds: BTreeMap<String, (K, bool, DatumId)> = BTreeMap::new();
+    let mut kinds: BTreeMap<usize, (K, bool)> = BTreeMap::new();
+    // the live datum carrying each name (a removed name may be added again: a new datum)
+    let mut live: BTreeMap<String, DatumId> = BTreeMap::new();
     for op in &def.ops {
         match op {
             Op::Add(name, k, uninit) => {
@@ -295,10 +326,12 @@ fn build(def: &ModuleDef) -> (RecordDefinition<NativeDatumDetails>, BTreeMap<Str
                         },
                     )
                     .unwrap();
-                kinds.insert(name.to_string(), (*k, *uninit, id));
+                kinds.insert(id_index(id), (*k, *uninit));
+                live.insert(name.to_string(), id);
             }
             Op::Remove(name) => {
-                b.remove_datum(kinds[*name].2).unwrap();
+                let id = live.remove(*name).expect("removing a live name");
+                b.remove_datum(id).unwrap();
             }
             Op::Close(s) => {
                 match s {
@@ -313,14 +346,14 @@ fn build(def: &ModuleDef) -> (RecordDefinition<NativeDatumDetails>, BTreeMap<Str
     (b.build(), kinds)
 }
 
-fn variant_fields(def: &RecordDefinition<NativeDatumDetails>, kinds: &BTreeMap<String, (K, bool, DatumId)>) -> Vec<Vec<Field>> {
+fn variant_fields(def: &RecordDefinition<NativeDatumDetails>, kinds: &BTreeMap<usize, (K, bool)>) -> Vec<Vec<Field>> {
     def.variants()
         .map(|v| {
             v.data_sorted()
                 .map(|d| {
                     let dd = &def[d];
-                    let (k, uninit, _) = kinds[dd.name()];
-                    Field { name: dd.name().to_owned(), k, uninit, offset: dd.details().offset() }
+                    let (k, uninit) = kinds[&id_index(d)];
+                    Field { name: dd.name().to_owned(), var: format!("{}_{}", dd.name(), id_index(d)), id: id_index(d), k, uninit, offset: dd.details().offset() }
                 })
                 .collect()
         })
@@ -332,7 +365,7 @@ fn variant_fields(def: &RecordDefinition<NativeDatumDetails>, kinds: &BTreeMap<S
 
 fn seeds(out: &mut String, fields: &[Field], p: &str) {
     for f in fields {
-        writeln!(out, "        let {p}_{n} = <{t} as Val>::seed();", n = f.name, t = f.k.ty()).unwrap();
+        writeln!(out, "        let {p}_{v} = <{t} as Val>::seed();", v = f.var, t = f.k.ty()).unwrap();
     }
 }
 
@@ -351,8 +384,8 @@ fn check_acc(out: &mut String, recv: &str, fields: &[Field], seed: &dyn Fn(&Fiel
     }
 }
 
-fn has(fields: &[Field], name: &str) -> bool {
-    fields.iter().any(|f| f.name == name)
+fn has(fields: &[Field], id: usize) -> bool {
+    fields.iter().any(|f| f.id == id)
 }
 
 fn harnesses(def: &ModuleDef, vars: &[Vec<Field>], max_size: usize, max_align: usize) -> String {
@@ -367,24 +400,24 @@ fn harnesses(def: &ModuleDef, vars: &[Vec<Field>], max_size: usize, max_align: u
         hdr(&mut o, &format!("c04_v{k}_new_read_write_unpack"));
         seeds(&mut o, fields, "s");
         writeln!(o, "        let mut r: CappedRecord{k}<{cap}> = CappedRecord{k}::new({});",
-            literal(&format!("UnpackedRecord{k}"), fields, &|f| format!("s_{}", f.name))).unwrap();
-        check_acc(&mut o, "r", fields, &|f| format!("s_{}", f.name), "C04 read after new");
-        let mut cur: BTreeMap<String, String> = fields.iter().map(|f| (f.name.clone(), format!("s_{}", f.name))).collect();
+            literal(&format!("UnpackedRecord{k}"), fields, &|f| format!("s_{}", f.var))).unwrap();
+        check_acc(&mut o, "r", fields, &|f| format!("s_{}", f.var), "C04 read after new");
+        let mut cur: BTreeMap<String, String> = fields.iter().map(|f| (f.name.clone(), format!("s_{}", f.var))).collect();
         for f in fields {
-            writeln!(o, "        let n_{n} = <{t} as Val>::seed();", n = f.name, t = f.k.ty()).unwrap();
-            writeln!(o, "        *r.{n}_mut() = <{t} as Val>::make(n_{n});", n = f.name, t = f.k.ty()).unwrap();
+            writeln!(o, "        let n_{v} = <{t} as Val>::seed();", v = f.var, t = f.k.ty()).unwrap();
+            writeln!(o, "        *r.{n}_mut() = <{t} as Val>::make(n_{v});", n = f.name, v = f.var, t = f.k.ty()).unwrap();
             if f.k.token() {
-                writeln!(o, "        assert!(drops(s_{n}.id) == 1, \"C06: value overwritten through {n}_mut destroyed exactly once\");", n = f.name).unwrap();
+                writeln!(o, "        assert!(drops(s_{v}.id) == 1, \"C06: value overwritten through {n}_mut destroyed exactly once\");", n = f.name, v = f.var).unwrap();
             }
-            cur.insert(f.name.clone(), format!("n_{}", f.name));
+            cur.insert(f.name.clone(), format!("n_{}", f.var));
             let c2 = cur.clone();
             check_acc(&mut o, "r", fields, &move |g| c2[&g.name].clone(), &format!("C04 write through {}_mut changes that field only", f.name));
         }
         writeln!(o, "        let u = r.unpack();").unwrap();
         for f in fields {
-            writeln!(o, "        assert!(u.{n}.is(n_{n}), \"C04 unpack: field {n}\");", n = f.name).unwrap();
+            writeln!(o, "        assert!(u.{n}.is(n_{v}), \"C04 unpack: field {n}\");", n = f.name, v = f.var).unwrap();
             if f.k.token() {
-                writeln!(o, "        assert!(drops(n_{n}.id) == 0, \"C06: value handed back by unpack was destroyed\");", n = f.name).unwrap();
+                writeln!(o, "        assert!(drops(n_{v}.id) == 0, \"C06: value handed back by unpack was destroyed\");", v = f.var).unwrap();
             }
         }
         writeln!(o, "        drop(u);").unwrap();
@@ -395,14 +428,14 @@ fn harnesses(def: &ModuleDef, vars: &[Vec<Field>], max_size: usize, max_align: u
         // ---- C04: the From<Unpacked..> / From<UnpackedUninit..> impls ---------------------------
         hdr(&mut o, &format!("c04_v{k}_from_unpacked_impls"));
         seeds(&mut o, fields, "s");
-        writeln!(o, "        let r: Record{k} = Record{k}::from({});", literal(&format!("UnpackedRecord{k}"), fields, &|f| format!("s_{}", f.name))).unwrap();
-        check_acc(&mut o, "r", fields, &|f| format!("s_{}", f.name), "C04 From<UnpackedRecord>");
+        writeln!(o, "        let r: Record{k} = Record{k}::from({});", literal(&format!("UnpackedRecord{k}"), fields, &|f| format!("s_{}", f.var))).unwrap();
+        check_acc(&mut o, "r", fields, &|f| format!("s_{}", f.var), "C04 From<UnpackedRecord>");
         writeln!(o, "        drop(r);").unwrap();
         {
             let mandatory: Vec<Field> = fields.iter().filter(|f| !f.uninit).cloned().collect();
             seeds(&mut o, &mandatory, "m");
-            writeln!(o, "        let r2: Record{k} = Record{k}::from({});", literal(&format!("UnpackedUninitRecord{k}"), &mandatory, &|f| format!("m_{}", f.name))).unwrap();
-            check_acc(&mut o, "r2", &mandatory, &|f| format!("m_{}", f.name), "C04 From<UnpackedUninitRecord>");
+            writeln!(o, "        let r2: Record{k} = Record{k}::from({});", literal(&format!("UnpackedUninitRecord{k}"), &mandatory, &|f| format!("m_{}", f.var))).unwrap();
+            check_acc(&mut o, "r2", &mandatory, &|f| format!("m_{}", f.var), "C04 From<UnpackedUninitRecord>");
             // a record whose optional fields were never written must still be droppable
             writeln!(o, "        drop(r2);").unwrap();
         }
@@ -414,13 +447,13 @@ fn harnesses(def: &ModuleDef, vars: &[Vec<Field>], max_size: usize, max_align: u
         hdr(&mut o, &format!("c04_v{k}_heap_placements_and_drop"));
         seeds(&mut o, fields, "s");
         seeds(&mut o, fields, "t");
-        writeln!(o, "        let b = Box::new(Record{k}::new({}));", literal(&format!("UnpackedRecord{k}"), fields, &|f| format!("s_{}", f.name))).unwrap();
-        check_acc(&mut o, "b", fields, &|f| format!("s_{}", f.name), "C04 boxed record");
+        writeln!(o, "        let b = Box::new(Record{k}::new({}));", literal(&format!("UnpackedRecord{k}"), fields, &|f| format!("s_{}", f.var))).unwrap();
+        check_acc(&mut o, "b", fields, &|f| format!("s_{}", f.var), "C04 boxed record");
         writeln!(o, "        let mut v: Vec<Record{k}> = Vec::with_capacity(2);").unwrap();
         writeln!(o, "        v.push(*b);").unwrap();
-        writeln!(o, "        v.push(Record{k}::new({}));", literal(&format!("UnpackedRecord{k}"), fields, &|f| format!("t_{}", f.name))).unwrap();
-        check_acc(&mut o, "v[0]", fields, &|f| format!("s_{}", f.name), "C04 vector element 0");
-        check_acc(&mut o, "v[1]", fields, &|f| format!("t_{}", f.name), "C04 vector element 1");
+        writeln!(o, "        v.push(Record{k}::new({}));", literal(&format!("UnpackedRecord{k}"), fields, &|f| format!("t_{}", f.var))).unwrap();
+        check_acc(&mut o, "v[0]", fields, &|f| format!("s_{}", f.var), "C04 vector element 0");
+        check_acc(&mut o, "v[1]", fields, &|f| format!("t_{}", f.var), "C04 vector element 1");
         writeln!(o, "        assert!(no_token_dropped_twice(), \"C06: moving a record must not destroy its fields\");").unwrap();
         writeln!(o, "        drop(v);").unwrap();
         writeln!(o, "        assert!(no_token_dropped_twice(), \"C06 C07: a value was destroyed twice, i.e. a typed read of a value that had already been moved out (dropping a record destroys every field exactly once)\");").unwrap();
@@ -434,16 +467,16 @@ fn harnesses(def: &ModuleDef, vars: &[Vec<Field>], max_size: usize, max_align: u
             hdr(&mut o, &format!("c04_v{k}_new_uninit_then_write"));
             seeds(&mut o, &mandatory, "s");
             writeln!(o, "        let mut r: CappedRecord{k}<{cap}> = CappedRecord{k}::new_uninit({});",
-                literal(&format!("UnpackedUninitRecord{k}"), &mandatory, &|f| format!("s_{}", f.name))).unwrap();
-            check_acc(&mut o, "r", &mandatory, &|f| format!("s_{}", f.name), "C04 mandatory field after new_uninit");
+                literal(&format!("UnpackedUninitRecord{k}"), &mandatory, &|f| format!("s_{}", f.var))).unwrap();
+            check_acc(&mut o, "r", &mandatory, &|f| format!("s_{}", f.var), "C04 mandatory field after new_uninit");
             for f in &optional {
-                writeln!(o, "        let s_{n} = <{t} as Val>::seed();", n = f.name, t = f.k.ty()).unwrap();
-                writeln!(o, "        *r.{n}_mut() = <{t} as Val>::make(s_{n});", n = f.name, t = f.k.ty()).unwrap();
+                writeln!(o, "        let s_{v} = <{t} as Val>::seed();", v = f.var, t = f.k.ty()).unwrap();
+                writeln!(o, "        *r.{n}_mut() = <{t} as Val>::make(s_{v});", n = f.name, v = f.var, t = f.k.ty()).unwrap();
             }
-            check_acc(&mut o, "r", fields, &|f| format!("s_{}", f.name), "C04 after writing the fields left uninitialised");
+            check_acc(&mut o, "r", fields, &|f| format!("s_{}", f.var), "C04 after writing the fields left uninitialised");
             writeln!(o, "        let u = r.unpack();").unwrap();
             for f in fields {
-                writeln!(o, "        assert!(u.{n}.is(s_{n}), \"C04 unpack after new_uninit: field {n}\");", n = f.name).unwrap();
+                writeln!(o, "        assert!(u.{n}.is(s_{v}), \"C04 unpack after new_uninit: field {n}\");", n = f.name, v = f.var).unwrap();
             }
             writeln!(o, "        drop(u);").unwrap();
             writeln!(o, "        assert!(no_token_dropped_twice(), \"C06 C07: a value was destroyed twice, i.e. a typed read of a value that had already been moved out (exactly once after new_uninit)\");").unwrap();
@@ -455,24 +488,24 @@ fn harnesses(def: &ModuleDef, vars: &[Vec<Field>], max_size: usize, max_align: u
         if def.clone {
             hdr(&mut o, &format!("c16_v{k}_clone_is_equal_and_independent"));
             seeds(&mut o, fields, "s");
-            writeln!(o, "        let mut r = Record{k}::new({});", literal(&format!("UnpackedRecord{k}"), fields, &|f| format!("s_{}", f.name))).unwrap();
+            writeln!(o, "        let mut r = Record{k}::new({});", literal(&format!("UnpackedRecord{k}"), fields, &|f| format!("s_{}", f.var))).unwrap();
             writeln!(o, "        let mut c = r.clone();").unwrap();
             for f in fields {
-                writeln!(o, "        assert!(c.{n}().same_value(s_{n}), \"C16 clone equal: field {n}\");", n = f.name).unwrap();
+                writeln!(o, "        assert!(c.{n}().same_value(s_{v}), \"C16 clone equal: field {n}\");", n = f.name, v = f.var).unwrap();
             }
-            check_acc(&mut o, "r", fields, &|f| format!("s_{}", f.name), "C16 source unchanged by clone");
+            check_acc(&mut o, "r", fields, &|f| format!("s_{}", f.var), "C16 source unchanged by clone");
             for f in fields {
-                writeln!(o, "        let n_{n} = <{t} as Val>::seed();", n = f.name, t = f.k.ty()).unwrap();
-                writeln!(o, "        *c.{n}_mut() = <{t} as Val>::make(n_{n});", n = f.name, t = f.k.ty()).unwrap();
+                writeln!(o, "        let n_{v} = <{t} as Val>::seed();", v = f.var, t = f.k.ty()).unwrap();
+                writeln!(o, "        *c.{n}_mut() = <{t} as Val>::make(n_{v});", n = f.name, v = f.var, t = f.k.ty()).unwrap();
             }
-            check_acc(&mut o, "r", fields, &|f| format!("s_{}", f.name), "C16 mutating the clone leaves the source intact");
+            check_acc(&mut o, "r", fields, &|f| format!("s_{}", f.var), "C16 mutating the clone leaves the source intact");
             for f in fields {
-                writeln!(o, "        let m_{n} = <{t} as Val>::seed();", n = f.name, t = f.k.ty()).unwrap();
-                writeln!(o, "        *r.{n}_mut() = <{t} as Val>::make(m_{n});", n = f.name, t = f.k.ty()).unwrap();
+                writeln!(o, "        let m_{v} = <{t} as Val>::seed();", v = f.var, t = f.k.ty()).unwrap();
+                writeln!(o, "        *r.{n}_mut() = <{t} as Val>::make(m_{v});", n = f.name, v = f.var, t = f.k.ty()).unwrap();
             }
-            check_acc(&mut o, "c", fields, &|f| format!("n_{}", f.name), "C16 mutating the source leaves the clone intact");
+            check_acc(&mut o, "c", fields, &|f| format!("n_{}", f.var), "C16 mutating the source leaves the clone intact");
             writeln!(o, "        drop(r);").unwrap();
-            check_acc(&mut o, "c", fields, &|f| format!("n_{}", f.name), "C16 clone readable after the source is dropped");
+            check_acc(&mut o, "c", fields, &|f| format!("n_{}", f.var), "C16 clone readable after the source is dropped");
             writeln!(o, "        drop(c);").unwrap();
             writeln!(o, "        assert!(no_token_dropped_twice(), \"C06 C07: a value was destroyed twice, i.e. a typed read of a value that had already been moved out (clone and source destroyed exactly once each)\");").unwrap();
         writeln!(o, "        assert!(no_token_leaked(), \"C06: a value moved into the record was never destroyed (clone and source destroyed exactly once each)\");").unwrap();
@@ -481,16 +514,16 @@ fn harnesses(def: &ModuleDef, vars: &[Vec<Field>], max_size: usize, max_align: u
             hdr(&mut o, &format!("c16_v{k}_clone_from"));
             seeds(&mut o, fields, "s");
             seeds(&mut o, fields, "t");
-            writeln!(o, "        let src = Record{k}::new({});", literal(&format!("UnpackedRecord{k}"), fields, &|f| format!("s_{}", f.name))).unwrap();
-            writeln!(o, "        let mut tgt = Record{k}::new({});", literal(&format!("UnpackedRecord{k}"), fields, &|f| format!("t_{}", f.name))).unwrap();
+            writeln!(o, "        let src = Record{k}::new({});", literal(&format!("UnpackedRecord{k}"), fields, &|f| format!("s_{}", f.var))).unwrap();
+            writeln!(o, "        let mut tgt = Record{k}::new({});", literal(&format!("UnpackedRecord{k}"), fields, &|f| format!("t_{}", f.var))).unwrap();
             writeln!(o, "        tgt.clone_from(&src);").unwrap();
             for f in fields {
-                writeln!(o, "        assert!(tgt.{n}().same_value(s_{n}), \"C16 clone_from makes the target equal: field {n}\");", n = f.name).unwrap();
+                writeln!(o, "        assert!(tgt.{n}().same_value(s_{v}), \"C16 clone_from makes the target equal: field {n}\");", n = f.name, v = f.var).unwrap();
                 if f.k.token() {
-                    writeln!(o, "        assert!(drops(t_{n}.id) == 1, \"C16 previous contents of the target destroyed exactly once: field {n}\");", n = f.name).unwrap();
+                    writeln!(o, "        assert!(drops(t_{v}.id) == 1, \"C16 previous contents of the target destroyed exactly once: field {n}\");", n = f.name, v = f.var).unwrap();
                 }
             }
-            check_acc(&mut o, "src", fields, &|f| format!("s_{}", f.name), "C16 source unchanged by clone_from");
+            check_acc(&mut o, "src", fields, &|f| format!("s_{}", f.var), "C16 source unchanged by clone_from");
             writeln!(o, "        drop(src);\n        drop(tgt);").unwrap();
             writeln!(o, "        assert!(no_token_dropped_twice(), \"C06 C07: a value was destroyed twice, i.e. a typed read of a value that had already been moved out (exactly once after clone_from)\");").unwrap();
         writeln!(o, "        assert!(no_token_leaked(), \"C06: a value moved into the record was never destroyed (exactly once after clone_from)\");").unwrap();
@@ -502,13 +535,13 @@ fn harnesses(def: &ModuleDef, vars: &[Vec<Field>], max_size: usize, max_align: u
             let n = fields.len();
             hdr(&mut o, &format!("c15_v{k}_round_trip"));
             seeds(&mut o, fields, "s");
-            writeln!(o, "        let r = Record{k}::new({});", literal(&format!("UnpackedRecord{k}"), fields, &|f| format!("s_{}", f.name))).unwrap();
+            writeln!(o, "        let r = Record{k}::new({});", literal(&format!("UnpackedRecord{k}"), fields, &|f| format!("s_{}", f.var))).unwrap();
             writeln!(o, "        let mut buf = crate::tokfmt::Buf::new();").unwrap();
             writeln!(o, "        let res = serde::Serialize::serialize(&r, crate::tokfmt::Ser {{ out: &mut buf }});").unwrap();
             writeln!(o, "        assert!(res.is_ok(), \"C15: serialization failed\");").unwrap();
             writeln!(o, "        assert!(buf.len == {} && buf.toks[0] == crate::tokfmt::Token::TupleStart({n}) && buf.toks[{}] == crate::tokfmt::Token::TupleEnd, \"C15: a record is a tuple of its {n} fields\");", n + 2, n + 1).unwrap();
             for (i, f) in fields.iter().enumerate() {
-                writeln!(o, "        assert!(buf.toks[{}] == <{t} as TokVal>::token(s_{nm}), \"C15: field {nm} encoded at position {i} (declaration order)\");", i + 1, t = f.k.ty(), nm = f.name).unwrap();
+                writeln!(o, "        assert!(buf.toks[{}] == <{t} as TokVal>::token(s_{v}), \"C15: field {nm} encoded at position {i} (declaration order)\");", i + 1, t = f.k.ty(), nm = f.name, v = f.var).unwrap();
             }
             writeln!(o, "        let sd: bool = nd::<bool>();").unwrap();
             writeln!(o, "        let mut inp = crate::tokfmt::Input {{ toks: &buf.toks, len: buf.len, pos: 0, self_describing: sd }};").unwrap();
@@ -516,9 +549,9 @@ fn harnesses(def: &ModuleDef, vars: &[Vec<Field>], max_size: usize, max_align: u
             writeln!(o, "        assert!(back.is_ok(), \"C15: what was serialized does not deserialize\");").unwrap();
             writeln!(o, "        let back = back.unwrap();").unwrap();
             for f in fields {
-                writeln!(o, "        assert!(back.{nm}().same_value(s_{nm}), \"C15: field {nm} differs after the round trip\");", nm = f.name).unwrap();
+                writeln!(o, "        assert!(back.{nm}().same_value(s_{v}), \"C15: field {nm} differs after the round trip\");", nm = f.name, v = f.var).unwrap();
             }
-            check_acc(&mut o, "r", fields, &|f| format!("s_{}", f.name), "C15 source unchanged by serialization");
+            check_acc(&mut o, "r", fields, &|f| format!("s_{}", f.var), "C15 source unchanged by serialization");
             writeln!(o, "        drop(r);\n        drop(back);").unwrap();
             writeln!(o, "        assert!(no_token_dropped_twice(), \"C06 C07: a value was destroyed twice (serde round trip)\");").unwrap();
             writeln!(o, "        assert!(no_token_leaked(), \"C06 C15: a value was never destroyed (serde round trip)\");").unwrap();
@@ -559,28 +592,28 @@ fn harnesses(def: &ModuleDef, vars: &[Vec<Field>], max_size: usize, max_align: u
         // ---- C05: conversions from the previous variant -----------------------------------------
         if k > 0 {
             let prev = &vars[k - 1];
-            let carried: Vec<Field> = fields.iter().filter(|f| has(prev, &f.name)).cloned().collect();
-            let plus: Vec<Field> = fields.iter().filter(|f| !has(prev, &f.name)).cloned().collect();
-            let minus: Vec<Field> = prev.iter().filter(|f| !has(fields, &f.name)).cloned().collect();
+            let carried: Vec<Field> = fields.iter().filter(|f| has(prev, f.id)).cloned().collect();
+            let plus: Vec<Field> = fields.iter().filter(|f| !has(prev, f.id)).cloned().collect();
+            let minus: Vec<Field> = prev.iter().filter(|f| !has(fields, f.id)).cloned().collect();
             let plus_mand: Vec<Field> = plus.iter().filter(|f| !f.uninit).cloned().collect();
             let plus_opt: Vec<Field> = plus.iter().filter(|f| f.uninit).cloned().collect();
             for (form, with_out, uninit) in [("all", false, false), ("uninit", false, true), ("out_all", true, false), ("out_uninit", true, true)] {
                 hdr(&mut o, &format!("c05_v{k}_from_previous_{form}"));
                 seeds(&mut o, prev, "p");
                 let pk = k - 1;
-                writeln!(o, "        let prev = Record{pk}::new({});", literal(&format!("UnpackedRecord{pk}"), prev, &|f| format!("p_{}", f.name))).unwrap();
+                writeln!(o, "        let prev = Record{pk}::new({});", literal(&format!("UnpackedRecord{pk}"), prev, &|f| format!("p_{}", f.var))).unwrap();
                 let given: &Vec<Field> = if uninit { &plus_mand } else { &plus };
                 seeds(&mut o, given, "a");
                 let in_name = if uninit { format!("UnpackedUninitRecordIn{k}") } else { format!("UnpackedRecordIn{k}") };
-                let lit = literal(&in_name, given, &|f| format!("a_{}", f.name));
+                let lit = literal(&in_name, given, &|f| format!("a_{}", f.var));
                 let recv;
                 if with_out {
                     writeln!(o, "        let mut o = Record{k}AndUnpackedOut::<{{ MAX_SIZE }}>::from((prev, {lit}));").unwrap();
                     recv = "o.record";
                     for f in &minus {
-                        writeln!(o, "        assert!(o.{n}.is(p_{n}), \"C05 removed field handed back with its value: {n}\");", n = f.name).unwrap();
+                        writeln!(o, "        assert!(o.{n}.is(p_{v}), \"C05 removed field handed back with its value: {n}\");", n = f.name, v = f.var).unwrap();
                         if f.k.token() {
-                            writeln!(o, "        assert!(drops(p_{n}.id) == 0, \"C06: field handed back by the conversion must not have been destroyed: {n}\");", n = f.name).unwrap();
+                            writeln!(o, "        assert!(drops(p_{v}.id) == 0, \"C06: field handed back by the conversion must not have been destroyed: {n}\");", n = f.name, v = f.var).unwrap();
                         }
                     }
                 } else {
@@ -588,24 +621,24 @@ fn harnesses(def: &ModuleDef, vars: &[Vec<Field>], max_size: usize, max_align: u
                     recv = "r";
                     for f in &minus {
                         if f.k.token() {
-                            writeln!(o, "        assert!(drops(p_{n}.id) == 1, \"C06: field removed by a conversion that does not return it is destroyed by it: {n}\");", n = f.name).unwrap();
+                            writeln!(o, "        assert!(drops(p_{v}.id) == 1, \"C06: field removed by a conversion that does not return it is destroyed by it: {n}\");", n = f.name, v = f.var).unwrap();
                         }
                     }
                 }
-                check_acc(&mut o, recv, &carried, &|f| format!("p_{}", f.name), "C05 carried-over field keeps its value");
+                check_acc(&mut o, recv, &carried, &|f| format!("p_{}", f.var), "C05 carried-over field keeps its value");
                 for f in &carried {
                     if f.k.token() {
-                        writeln!(o, "        assert!(drops(p_{n}.id) == 0, \"C06: carried-over field must not be destroyed by the conversion: {n}\");", n = f.name).unwrap();
+                        writeln!(o, "        assert!(drops(p_{v}.id) == 0, \"C06: carried-over field must not be destroyed by the conversion: {n}\");", n = f.name, v = f.var).unwrap();
                     }
                 }
-                check_acc(&mut o, recv, given, &|f| format!("a_{}", f.name), "C05 added field has the supplied value");
+                check_acc(&mut o, recv, given, &|f| format!("a_{}", f.var), "C05 added field has the supplied value");
                 if uninit {
                     for f in &plus_opt {
-                        writeln!(o, "        let a_{n} = <{t} as Val>::seed();", n = f.name, t = f.k.ty()).unwrap();
-                        writeln!(o, "        *{recv}.{n}_mut() = <{t} as Val>::make(a_{n});", n = f.name, t = f.k.ty()).unwrap();
+                        writeln!(o, "        let a_{v} = <{t} as Val>::seed();", v = f.var, t = f.k.ty()).unwrap();
+                        writeln!(o, "        *{recv}.{n}_mut() = <{t} as Val>::make(a_{v});", n = f.name, v = f.var, t = f.k.ty()).unwrap();
                     }
-                    check_acc(&mut o, recv, &plus, &|f| format!("a_{}", f.name), "C05 added field written after an uninit conversion");
-                    check_acc(&mut o, recv, &carried, &|f| format!("p_{}", f.name), "C05 carried-over field after those writes");
+                    check_acc(&mut o, recv, &plus, &|f| format!("a_{}", f.var), "C05 added field written after an uninit conversion");
+                    check_acc(&mut o, recv, &carried, &|f| format!("p_{}", f.var), "C05 carried-over field after those writes");
                 }
                 if with_out {
                     writeln!(o, "        drop(o);").unwrap();
@@ -623,20 +656,20 @@ fn harnesses(def: &ModuleDef, vars: &[Vec<Field>], max_size: usize, max_align: u
     if vars.len() > 1 {
         hdr(&mut o, "c05_chain_first_to_last");
         seeds(&mut o, &vars[0], "s");
-        writeln!(o, "        let r0 = Record0::new({});", literal("UnpackedRecord0", &vars[0], &|f| format!("s_{}", f.name))).unwrap();
+        writeln!(o, "        let r0 = Record0::new({});", literal("UnpackedRecord0", &vars[0], &|f| format!("s_{}", f.var))).unwrap();
         for k in 1..vars.len() {
             let prev = &vars[k - 1];
             let fields = &vars[k];
-            let plus: Vec<Field> = fields.iter().filter(|f| !has(prev, &f.name)).cloned().collect();
+            let plus: Vec<Field> = fields.iter().filter(|f| !has(prev, f.id)).cloned().collect();
             seeds(&mut o, &plus, "s");
-            let lit = literal(&format!("UnpackedRecordIn{k}"), &plus, &|f| format!("s_{}", f.name));
+            let lit = literal(&format!("UnpackedRecordIn{k}"), &plus, &|f| format!("s_{}", f.var));
             if k % 2 == 1 {
                 writeln!(o, "        let r{k} = Record{k}::from((r{pk}, {lit}));", pk = k - 1).unwrap();
             } else {
                 writeln!(o, "        let o{k} = Record{k}AndUnpackedOut::<{{ MAX_SIZE }}>::from((r{pk}, {lit}));", pk = k - 1).unwrap();
-                let minus: Vec<Field> = prev.iter().filter(|f| !has(fields, &f.name)).cloned().collect();
+                let minus: Vec<Field> = prev.iter().filter(|f| !has(fields, f.id)).cloned().collect();
                 for f in &minus {
-                    writeln!(o, "        assert!(o{k}.{n}.is(s_{n}), \"C05 chain: removed field handed back: {n}\");", n = f.name).unwrap();
+                    writeln!(o, "        assert!(o{k}.{n}.is(s_{v}), \"C05 chain: removed field handed back: {n}\");", n = f.name, v = f.var).unwrap();
                 }
                 // destructure: keep the record, drop the returned fields
                 let mut pat = format!("Record{k}AndUnpackedOut {{ record: r{k}, ");
@@ -646,12 +679,12 @@ fn harnesses(def: &ModuleDef, vars: &[Vec<Field>], max_size: usize, max_align: u
                 pat.push('}');
                 writeln!(o, "        let {pat} = o{k};").unwrap();
             }
-            check_acc(&mut o, &format!("r{k}"), fields, &|f| format!("s_{}", f.name), &format!("C05 chain at variant {k}")) ;
+            check_acc(&mut o, &format!("r{k}"), fields, &|f| format!("s_{}", f.var), &format!("C05 chain at variant {k}")) ;
         }
         let last = vars.len() - 1;
         writeln!(o, "        let u = r{last}.unpack();").unwrap();
         for f in &vars[last] {
-            writeln!(o, "        assert!(u.{n}.is(s_{n}), \"C05 chain: last variant unpacked: {n}\");", n = f.name).unwrap();
+            writeln!(o, "        assert!(u.{n}.is(s_{v}), \"C05 chain: last variant unpacked: {n}\");", n = f.name, v = f.var).unwrap();
         }
         writeln!(o, "        drop(u);").unwrap();
         writeln!(o, "    }}\n").unwrap();
